@@ -14,6 +14,8 @@ checks = {
              note="Order patterns per the property (D<=6 quick, <=9 thorough), boundary classes of centers by seeded covering. Term identity is sufficient, not necessary: a difference is reported only if a bit difference reproduces on the real build. Sound rewrites used: fadd/fmul commutative, x-(+0)=x, 1*x=x. " + TB),
  'C04': dict(engine='E1', tech=E1 + ", order-key abstraction (complete for comparison-only kernels)", text="CBMC decides the full lookup specification (accepts exactly (first,last]; center range; bracketing; margins; call operators return 0 iff lookup fails) for every order type of knots and coordinate per concrete (order,nknots); unwinding assertions give termination.",
              note="Orders 0..5, nknots min..min+3 (quick)/+8, ndim 1..2. Non-NaN coordinates. " + TB),
+ 'C14': dict(engine='E2', tech=E2 + "; oracle = exact rational piecewise-polynomial convolution", text="convolve is executed symbolically (all coefficients symbolic); for every coefficient slice and every open interval of the new knot vector z3 proves that the convolved spline equals the exact polynomial of the true convolution with the unit-area kernel (own rational oracle); order, knot vector (sorted pairwise sums), untouched dimensions, block sizes and allocator balance are obligations too.",
+             note="Orders 0..3 x kernels of 2..4 knots (quick), 0..5 x 2..6 (thorough), 1..3/4-D, every dimension index; concrete rational knots/kernels. Rounding of stored float coefficients and the extents heuristics are outside. " + TB),
  'C15': dict(engine='E2', tech="symbolic execution over uninterpreted payloads (QF_UF), one obligation per relocated item, exhaustive over permutations", text="The IR-derived permuteDimensions runs on tables whose every float payload is a distinct uninterpreted variable; for every permutation (all up to 4-D, sampled/all at 5-6-D) and every malformed argument shape, z3 decides one obligation per attribute, per coefficient index and for the inverse; the operator new/delete ledger shows temporaries are released.",
              note="Copying code is data-independent, so distinct payloads stand for all values; integer attributes are distinct concrete values. Value equality at the permuted point follows from the coefficient bijection and C01. " + TB),
  'C05': dict(engine='E1', tech=E1 + ", order keys incl. NaN", text="Every load/store of every evaluation entry point (member, evaluator, gradient, derivative, call operators) is checked against exactly sized table blocks for arbitrary coordinate keys including NaN and +-inf; library assert()s unreachable; loops/recursion bounded; 8-D/9-D gradients refused by exception with nothing written.",
